@@ -45,8 +45,10 @@ def canon(v):
     if v is None:
         return ['none']
     a = v if isinstance(v, np.ndarray) else np.asarray(v)
+    if a.dtype == object and a.shape == ():
+        return canon(a.item())          # np.savez wraps dicts / None in a 0-d object array
     if a.dtype == object:
-        flat = a.ravel().tolist() if a.shape != () else [a.item()]
+        flat = a.ravel().tolist()
         return ['obj', list(a.shape), [canon(x) for x in flat]]
     return [a.dtype.str, list(a.shape),
             hashlib.sha256(np.ascontiguousarray(a).tobytes()).hexdigest()[:20]]
@@ -87,7 +89,11 @@ def settings_digest(s):
 DEFAULT_SETTINGS = settings_digest({})
 
 
-def comp_digests(fd):
+def settings_digest_exact(s):
+    return H(sorted([[str(k), canon(v)] for k, v in dict(s).items()]))
+
+
+def comp_digests(fd, mesh_only=False, exact_settings=False):
     out = {}
     out['nodes'] = H(attr_digest(fd.nodes))
     out['elements'] = H(sorted([[str(t), attr_digest(a)] for t, a in fd.elements.items()]))
@@ -96,8 +102,16 @@ def comp_digests(fd):
         # nodal_data['NODE'] is a mirror of nodes inserted by FEMData.__init__:
         # it is not part of the nodal component
         skip = ('NODE',) if m == 'nodal_data' else ()
+        if mesh_only and m == 'elemental_data':
+            # read_npy_directory(read_mesh_only=True) keeps the polyhedral 'face'
+            # attribute: it belongs to the mesh
+            skip = ('face',)
         n = len([k for k in coll.keys() if str(k) not in skip])
         out[m] = None if n == 0 else coll_digest(coll, skip)
+    if exact_settings:
+        # no normalisation: a stored solution_type None must come back as None
+        out['settings'] = settings_digest_exact(fd.settings)
+        return out
     sd = settings_digest(fd.settings)
     out['settings'] = None if sd == DEFAULT_SETTINGS else sd
     return out
@@ -151,12 +165,48 @@ def build(desc):
     elements = FEMElementalAttribute('ELEMENT', el)
     settings = dict(desc.get('settings', {}))
     fd = FEMData(nodes=nodes, elements=elements, settings=settings)
-    for name, dim, ts in desc.get('nodal', []):
+    def values(k, dim, dtype=None):
+        shape = (k,) if dim == 0 else ((k,) + tuple(dim) if isinstance(dim, list) else (k, dim))
+        v = rs.randint(-9, 9, shape)
+        if dtype == 'int':
+            return v.astype(np.int64)
+        if dtype == 'int32':
+            return v.astype(np.int32)
+        if dtype == 'bool':
+            return v > 0
+        if dtype == 'f32':
+            return (v / 2.0).astype(np.float32)
+        return v / 2.0
+
+    for ent in desc.get('nodal', []):
+        name, dim, ts = ent[0], ent[1], ent[2]
+        dtype = ent[3] if len(ent) > 3 else None
         if ts:
             fd.nodal_data.update({name: FEMAttribute(
                 name, node_ids, rs.randint(-9, 9, (ts, n, dim)) / 2.0, time_series=True)})
         else:
-            fd.nodal_data.update({name: FEMAttribute(name, node_ids, rs.randint(-9, 9, (n, dim)) / 2.0)})
+            fd.nodal_data.update({name: FEMAttribute(name, node_ids, values(n, dim, dtype))})
+    for key, dim in desc.get('alias', []):
+        # alias spellings (t_init -> INITIAL_TEMPERATURE, disp -> DISPLACEMENT ...)
+        fd.nodal_data[key] = FEMAttribute(key, node_ids, values(n, dim))
+    for kind, name in desc.get('mods', []):
+        # partial / in-place updates before the save
+        a = fd.nodal_data[name]
+        sub = node_ids[rs.choice(n, max(1, n // 3), replace=False)]
+        new = values(len(sub), list(a.data.shape[1:]) if a.data.ndim != 2 else a.data.shape[1]) \
+            if a.data.ndim > 1 else values(len(sub), 0)
+        if kind == 'update_data':
+            fd.nodal_data.update_data(sub, {name: new}, allow_overwrite=True)
+        elif kind == 'loc':
+            a.loc[sub].data = new
+        elif kind == 'inplace':
+            if a.data.flags.writeable:
+                a.data[int(rs.randint(0, n))] = 77.
+        elif kind == 'overwrite':
+            fd.nodal_data.overwrite(name, values(n, list(a.data.shape[1:]) if a.data.ndim != 2
+                                                 else a.data.shape[1]) if a.data.ndim > 1 else values(n, 0))
+        else:
+            raise AssertionError(kind)
     for name, dim in desc.get('elemental', []):
         per = {}
         for t, eids in all_eids:
@@ -165,7 +215,7 @@ def build(desc):
                 for i in range(len(eids)):
                     data[i] = [int(x) for x in rs.randint(1, 9, 3 + int(rs.randint(0, 5)))]
             else:
-                data = rs.randint(-9, 9, (len(eids), dim)) / 2.0
+                data = values(len(eids), dim, desc.get('elemental_dtype'))
             per[t] = FEMAttribute(name, eids, data)
         fd.elemental_data.update({name: FEMElementalAttribute(name, per)})
     for key, name, dim in desc.get('nodal_alias', []):
@@ -180,39 +230,74 @@ def build(desc):
     return fd
 
 
-# ------------------------------------------------------------------ crash injection
+# ------------------------------------------------------------------ fault injection
+class Injected(OSError):
+    pass
+
+
 class Crash:
     ticks = 0
     limit = None
     inside = False
+    mode = 'exit'          # 'exit': os._exit; 'raise': exception before the effect;
+                           # 'raise-mid': the file is written half, then the exception
+    saved = None
 
 
-def tick():
+def tick(midfile=None):
+    """called before every file effect; midfile: callable performing a
+    truncated write (only for np.savez / np.save)"""
     if Crash.inside:
         return
     if Crash.limit is not None and Crash.ticks == Crash.limit:
-        os._exit(17)
+        if Crash.mode == 'exit':
+            os._exit(17)
+        if Crash.mode == 'raise-mid' and midfile is not None:
+            Crash.inside = True
+            try:
+                midfile()
+            finally:
+                Crash.inside = False
+        Crash.limit = None
+        raise Injected('injected write error')
     Crash.ticks += 1
 
 
-def install_crash(limit):
+def _npz_path(file):
+    p = str(file)
+    return p if p.endswith('.npz') else p + '.npz'
+
+
+def install_crash(limit, mode='exit'):
     Crash.ticks = 0
     Crash.limit = limit
+    Crash.mode = mode
+    saved = []
 
-    def wrap_always(mod, name):
+    def patch(obj, name, f):
+        saved.append((obj, name, getattr(obj, name)))
+        setattr(obj, name, f)
+
+    def wrap_always(mod, name, writes_file=False):
         orig = getattr(mod, name)
 
         def f(*a, **kw):
-            tick()
+            def mid():
+                orig(*a, **kw)
+                p = _npz_path(a[0]) if name.startswith('savez') else str(a[0])
+                if os.path.exists(p):
+                    with open(p, 'r+b') as fh:
+                        fh.truncate(max(1, os.path.getsize(p) // 2))
+            tick(mid if writes_file else None)
             Crash.inside = True
             try:
                 return orig(*a, **kw)
             finally:
                 Crash.inside = False
-        setattr(mod, name, f)
+        patch(mod, name, f)
 
     for nm in ('savez', 'save', 'savez_compressed', 'savetxt'):
-        wrap_always(np, nm)
+        wrap_always(np, nm, writes_file=True)
     orig_touch = pathlib.Path.touch
 
     def touch(self, *a, **kw):
@@ -222,7 +307,7 @@ def install_crash(limit):
             return orig_touch(self, *a, **kw)
         finally:
             Crash.inside = False
-    pathlib.Path.touch = touch
+    patch(pathlib.Path, 'touch', touch)
     orig_unlink = pathlib.Path.unlink
 
     def unlink(self, missing_ok=False):
@@ -233,7 +318,7 @@ def install_crash(limit):
             return orig_unlink(self, missing_ok=missing_ok)
         finally:
             Crash.inside = False
-    pathlib.Path.unlink = unlink
+    patch(pathlib.Path, 'unlink', unlink)
     for nm in ('remove', 'unlink'):
         orig = getattr(os, nm)
 
@@ -241,9 +326,18 @@ def install_crash(limit):
             if not Crash.inside and os.path.lexists(path):
                 tick()
             return _orig(path, *a, **kw)
-        setattr(os, nm, rm)
+        patch(os, nm, rm)
     for nm in ('rename', 'replace'):
         wrap_always(os, nm)
+    Crash.saved = saved
+
+
+def uninstall_crash():
+    for obj, name, orig in reversed(Crash.saved or []):
+        setattr(obj, name, orig)
+    Crash.saved = None
+    Crash.limit = None
+    Crash.inside = False
 
 
 # ------------------------------------------------------------------ reads
@@ -308,8 +402,8 @@ class World:
         shutil.rmtree(tmp, ignore_errors=True)
         return j
 
-    def ident(self, fd):
-        dg = comp_digests(fd)
+    def ident(self, fd, mesh_only=False):
+        dg = comp_digests(fd, mesh_only)
         out = []
         for ci, c in enumerate(COMPS):
             if dg[c] is None:
@@ -329,25 +423,44 @@ class World:
                 out[p.name] = self.fdig.get((c, dg), -1)
         return out
 
-    def read(self, ftype, d):
+    def read(self, ftype, d, mesh_only=False):
         Flags.loaded = Flags.parsed = False
         try:
-            fd = FEMData.read_directory(ftype, d)
+            fd = FEMData.read_directory(ftype, d, read_mesh_only=bool(mesh_only))
         except Exception as e:
             kind = 'LE' if Flags.loaded and not Flags.parsed else 'PE'
             return [kind, type(e).__name__ + ': ' + str(e)[:120]]
         if Flags.loaded and not Flags.parsed:
-            return ['L', self.ident(fd)]
-        return ['P', self.ident(fd)]
+            return ['L', self.ident(fd, mesh_only)]
+        return ['P', self.ident(fd, mesh_only)]
 
     def run_op(self, op, ftype, d, resfile):
         k = op[0]
         if k == 'R':
-            return self.read(ftype, d)
+            return self.read(ftype, d, op[1])
         if k == 'S':
             self.objects[op[1]].save(d, save_mesh_only=bool(op[2]))
             return ['N']
         raise AssertionError(op)
+
+    def run_fault_op(self, op, ftype, d):
+        """the k-th file effect raises (same process, which then goes on):
+        SX j mesh k / RX m k at a file boundary, SXM j mesh k in the middle of a file"""
+        mode = 'raise-mid' if op[0] == 'SXM' else 'raise'
+        install_crash(op[-1], mode)
+        try:
+            if op[0] == 'RX':
+                res = self.read(ftype, d, op[1])
+                if res[0] == 'PE' and 'injected' in res[1]:
+                    return ['P', None], True
+                return res, False
+            try:
+                self.objects[op[1]].save(d, save_mesh_only=bool(op[2]))
+            except Injected:
+                return ['N'], True
+            return ['N'], False
+        finally:
+            uninstall_crash()
 
     def run_crash_op(self, op, ftype, d, resfile):
         """fork; the child dies at the chosen file effect"""
@@ -359,7 +472,7 @@ class World:
             try:
                 install_crash(op[-1])
                 if op[0] == 'RC':
-                    res = self.read(ftype, d)
+                    res = self.read(ftype, d, op[1])
                 else:
                     self.objects[op[1]].save(d, save_mesh_only=bool(op[2]))
                     res = ['N']
@@ -392,6 +505,8 @@ class World:
             try:
                 if op[0] in ('RC', 'SC'):
                     res, died = self.run_crash_op(op, src['ftype'], d, resfile)
+                elif op[0] in ('SX', 'SXM', 'RX'):
+                    res, died = self.run_fault_op(op, src['ftype'], d)
                 else:
                     res = self.run_op(op, src['ftype'], d, resfile)
             except Exception:
@@ -403,29 +518,45 @@ class World:
             os.remove(resfile)
         return {'id': h['id'], 'steps': steps}
 
-    def roundtrip(self, rt):
-        """save an object into a fresh directory and load it again"""
-        d = self.work / f"rt{rt['id']}"
-        shutil.rmtree(d, ignore_errors=True)
-        out = {'id': rt['id']}
-        try:
-            fd = build(rt['desc'])
-        except Exception:
-            out['build_error'] = traceback.format_exc()[-400:]
-            return out
-        try:
-            before = comp_digests(fd)
-            fd.save(d)
-            out['files'] = sorted(p.name for p in d.glob('femio_*'))
-            fd2 = FEMData.read_npy_directory(d)
-            after = comp_digests(fd2)
+    def roundtrips(self, rts):
+        """every object is built and saved into its own directory; then ALL are
+        loaded; only then are they compared (several live objects)"""
+        outs, live = [], []
+        for rt in rts:
+            d = self.work / f"rt{rt['id']}"
+            shutil.rmtree(d, ignore_errors=True)
+            out = {'id': rt['id'], 'diff': [], 'exc': None}
+            outs.append(out)
+            try:
+                fd = build(rt['desc'])
+            except Exception:
+                out['build_error'] = traceback.format_exc()[-400:]
+                live.append(None)
+                continue
+            try:
+                fd.save(d)
+                out['files'] = sorted(p.name for p in d.glob('femio_*'))
+                live.append([fd, d, None])
+            except Exception as e:
+                out['exc'] = 'save: ' + type(e).__name__ + ': ' + str(e)[:160]
+                live.append(None)
+        for out, lv in zip(outs, live):
+            if lv is None:
+                continue
+            try:
+                lv[2] = FEMData.read_npy_directory(lv[1])
+            except Exception as e:
+                out['exc'] = type(e).__name__ + ': ' + str(e)[:160]
+        for out, lv in zip(outs, live):
+            if lv is None or lv[2] is None:
+                continue
+            before = comp_digests(lv[0], exact_settings=True)
+            after = comp_digests(lv[2], exact_settings=True)
             out['diff'] = [c for c in COMPS if before[c] != after[c]]
-            out['exc'] = None
-        except Exception as e:
-            out['exc'] = type(e).__name__ + ': ' + str(e)[:160]
-            out['diff'] = []
-        shutil.rmtree(d, ignore_errors=True)
-        return out
+            if 'settings' in out['diff']:
+                out['settings'] = [repr(dict(lv[0].settings))[:200], repr(dict(lv[2].settings))[:200]]
+            shutil.rmtree(lv[1], ignore_errors=True)
+        return outs
 
 
 def twice(w, tw):
@@ -443,7 +574,8 @@ def twice(w, tw):
         Flags.loaded = Flags.parsed = False
         fd1 = FEMData.read_directory(tw['ftype'], d, **kw)
         out['first'] = 'parsed' if Flags.parsed and not Flags.loaded else 'other'
-        d1 = comp_digests(fd1)
+        d1 = comp_digests(fd1, exact_settings=True)
+        out['settings_first'] = repr(dict(fd1.settings))[:200]
     except Exception as e:
         out['first_exc'] = type(e).__name__ + ': ' + str(e)[:120]
         shutil.rmtree(d, ignore_errors=True)
@@ -453,7 +585,8 @@ def twice(w, tw):
         Flags.loaded = Flags.parsed = False
         fd2 = FEMData.read_directory(tw['ftype'], d, **kw)
         out['second'] = 'loaded' if Flags.loaded and not Flags.parsed else 'other'
-        d2 = comp_digests(fd2)
+        d2 = comp_digests(fd2, exact_settings=True)
+        out['settings_second'] = repr(dict(fd2.settings))[:200]
         out['diff'] = [c for c in COMPS if d1[c] != d2[c]]
         out['types'] = [str(t) for t in fd1.elements.keys()]
     except Exception as e:
@@ -535,7 +668,7 @@ def main():
     out['snaps'] = w.snaps
     out['classes'] = {m: type(getattr(w.objects[0], m)).__name__ for m in COMPS}
     out['histories'] = [w.history(h) for h in spec.get('histories', [])]
-    out['roundtrips'] = [w.roundtrip(rt) for rt in spec.get('roundtrips', [])]
+    out['roundtrips'] = w.roundtrips(spec.get('roundtrips', []))
     out['keycases'] = [keycase(kc) for kc in spec.get('keycases', [])]
     out['twice'] = [twice(w, tw) for tw in spec.get('twice', [])]
     pathlib.Path(spec['out']).write_text(json.dumps(out))
